@@ -41,17 +41,18 @@ def headerFlag (h : Option Comp) : Bool :=
   | some c => c.text.isSome
   | none => false
 
-/-! `s.1` is the function's only local variable, the running count — by position, so that renaming it changes nothing. -/
+/-! `s.v0` is the function's first (and only) local variable, the running count; the translator names locals by order of
+first binding, so renaming it in the Python source changes nothing. -/
 
 theorem loop1_step (sb hs fn src) (s : St) (h : Option Comp) :
-    (loop1 sb hs fn src s h).1 = s.1 + (if headerFlag h then 1 else 0) := by
+    (loop1 sb hs fn src s h).v0 = s.v0 + (if headerFlag h then 1 else 0) := by
   cases h with
   | none => simp [loop1, headerFlag]
   | some c => cases ht : c.text <;> simp [loop1, headerFlag, ht]
 
 theorem loop1_all (sb hs fn src) (l : List (Option Comp)) (s : St) :
-    (l.foldl (loop1 sb hs fn src) s).1 =
-      s.1 + Int.ofNat ((l.map headerFlag).filter id).length := by
+    (l.foldl (loop1 sb hs fn src) s).v0 =
+      s.v0 + Int.ofNat ((l.map headerFlag).filter id).length := by
   induction l generalizing s with
   | nil => simp
   | cons h t ih =>
